@@ -76,6 +76,17 @@ var c18Templates = []string{
 	`((fn [x] {:v (+ x N) :w [x]}) 2)`,
 	`(try (throw N) (catch e {:caught (trace! e)}))`,
 	`(do (trace! 0) [(trace! N) (+ N 1)])`,
+	// a malformed let in tail position, uncaught: the error's position is part of the error
+	`(do (trace! N) (let 5 1))`,
+	`(if true (let 5 N) 0)`,
+	`((fn [a] (let 5 a)) N)`,
+	`(let [a N] (do (trace! a) (let (1 2) a)))`,
+	// forms that leave out an optional operand
+	`((fn [a b] (if a)) N 2)`,
+	`(do (trace! N) (if true))`,
+	`(let [x N] (if x))`,
+	`((fn [a b] (do (trace! b) (if false))) 1 N)`,
+	`(list (if false N) (if nil N))`,
 	// forms with more than ten items
 	`(str 1 2 3 4 5 6 7 8 9 10 N 12)`,
 	`(do (trace! 1) (trace! 2) (trace! 3) (trace! 4) (trace! 5) (trace! 6) (trace! 7) (trace! 8) (trace! 9) (trace! 10) (trace! 11) N)`,
@@ -90,6 +101,9 @@ var c18CmdNames = []string{"noop", "next", "in", "out"}
 // stepSpy is a minimal simhook.Handler: it only looks at evaluation steps, to compare them with
 // what the stepper callback was handed just before.
 type stepSpy struct {
+	budget     int64 // evaluation steps after which the run is cancelled (0: no limit)
+	cancel     context.CancelFunc
+	runaway    bool
 	pendingAst string
 	pendingEnv interface{}
 	pending    bool
@@ -100,6 +114,14 @@ type stepSpy struct {
 
 func (sp *stepSpy) Step(ctx context.Context, ast, env interface{}) {
 	sp.steps++
+	if sp.budget > 0 && sp.steps > sp.budget && !sp.runaway {
+		// a program that does not terminate (a change to the evaluator can make one): stop it through
+		// its context instead of stalling the worker
+		sp.runaway = true
+		if sp.cancel != nil {
+			sp.cancel()
+		}
+	}
 	if sp.pending {
 		sp.pending = false
 		if a := canon(ast); a != sp.pendingAst || env != sp.pendingEnv {
@@ -122,6 +144,7 @@ func (sp *stepSpy) TaskEnd(interface{})                                         
 func (sp *stepSpy) TaskPanic(interface{}, interface{})                           {}
 
 type c18Exec struct {
+	runaway bool
 	result  string
 	errText string // err.Error() of the returned error: message and position
 	trace   []string
@@ -144,11 +167,19 @@ func c18OnceWith(ast func() types.MalType, plan c03Plan, cmd func(i int) debugge
 	e.Set(types.Symbol{Val: "probe-raw!"}, types.Func{Fn: func(ctx context.Context, a []types.MalType) (types.MalType, error) {
 		return rt.probe(ctx, a[0].(int), true)
 	}})
+	call.CallOverrideFN(e, "probe-e!", func(ctx context.Context, i int) error { _, err := rt.probe(ctx, i, false); return err })
 	if _, err := lisp.EVAL(context.Background(), mustRead(c03Setup), e); err != nil {
 		panic("c18 setup: " + err.Error())
 	}
 	var ex c18Exec
 	lisp.SimResetStepper()
+	if spy == nil {
+		spy = &stepSpy{}
+	}
+	runCtx, runCancel := context.WithCancel(context.Background())
+	defer runCancel()
+	spy.budget, spy.cancel = 300000, runCancel
+	simhook.Install(spy)
 	if shipped {
 		inner := shippedDebugger(e)
 		lisp.Stepper = func(a types.MalType, ns types.EnvType) debuggertypes.Command {
@@ -176,7 +207,8 @@ func c18OnceWith(ast func() types.MalType, plan c03Plan, cmd func(i int) debugge
 				ex.panic = panicString(r)
 			}
 		}()
-		res, err := lisp.EVAL(context.Background(), ast(), e)
+		res, err := lisp.EVAL(runCtx, ast(), e)
+		ex.runaway = spy.runaway
 		if err != nil {
 			ex.result = "THROWN " + thrown03(err)
 			ex.errText = err.Error()
@@ -266,6 +298,10 @@ func (c18) Run(tp *Tape, opt RunOpt) *RunOut {
 		return ast
 	}
 	ref := c18Once(mk, plan, nil, nil)
+	if ref.runaway {
+		out.Discard = "reference-run-does-not-terminate"
+		return out
+	}
 	if ref.panic != "" {
 		// not a stepper matter (and not expected): report it under its own clause
 		out.Violations = append(out.Violations, Violation{"C18.panic-without-stepper", normPanic(ref.panic), "EVAL panicked without a stepper: " + ref.panic + "\n  program: " + src})
@@ -291,6 +327,10 @@ func (c18) Run(tp *Tape, opt RunOpt) *RunOut {
 			out.Violations = append(out.Violations, Violation{"C18." + clause, sig, detail + "\n  program: " + src + "\n  fault plan: " + planStr(plan) + "\n  stepper commands (" + label + "): " + strings.Join(used, " ")})
 		}
 		ok := true
+		if ex.runaway {
+			viol("result", "does-not-terminate-under-the-stepper", "with the stepper the program was still running after 300000 evaluation steps; without it EVAL gave "+ref.result)
+			return false
+		}
 		if ex.panic != "" {
 			viol("panic", normPanic(ex.panic), "EVAL panicked with a stepper installed: "+ex.panic)
 			ok = false
